@@ -4,24 +4,24 @@
 # suite passes, the demo fails with the patch and passes without. On success stores it as /verif/seeded/<seed-id>/.
 set -u
 prop=$1; n=$2; id=$3
-wt=/tmp/seed-$prop; out=$wt/OUT
+wt=/tmp/seed-$prop; out=/tmp/seedout-$prop; [ -d $out ] || out=$wt/OUT
 export GOFLAGS= GOPROXY=off GOSUMDB=off GOTOOLCHAIN=local
 cd $wt || exit 2
 git checkout -q -- . 2>/dev/null; git clean -fdq slog tests 2>/dev/null
 place=$(jq -r .demo_placement $out/meta$n.json); run=$(jq -r .demo_run $out/meta$n.json)
-mkdir -p /tmp/seedout-$prop; mv $out/demo*_test.go /tmp/seedout-$prop/ 2>/dev/null
-log=/tmp/seedout-$prop/confirm$n.log; : > $log
+mkdir -p /tmp/seedtmp-$prop; cp $out/demo*_test.go /tmp/seedtmp-$prop/ 2>/dev/null; [ "$out" = "$wt/OUT" ] && rm -f $out/demo*_test.go
+log=/tmp/seedtmp-$prop/confirm$n.log; : > $log
 # demo passes without the patch
-cp /tmp/seedout-$prop/demo${n}_test.go $place
-if ! (eval "$run") >>$log 2>&1; then echo "REJECT $id: demo fails on unmodified code"; rm -f $place; mv /tmp/seedout-$prop/demo*_test.go $out/; exit 1; fi
+cp /tmp/seedtmp-$prop/demo${n}_test.go $place
+if ! (eval "$run") >>$log 2>&1; then echo "REJECT $id: demo fails on unmodified code"; rm -f $place; cp /tmp/seedtmp-$prop/demo*_test.go $out/ 2>/dev/null; exit 1; fi
 rm -f $place
 # patch applies, builds, suite passes
-if ! git apply $out/patch$n.diff 2>>$log; then echo "REJECT $id: patch does not apply"; mv /tmp/seedout-$prop/demo*_test.go $out/; exit 1; fi
-if ! (go build ./... && go test -count=1 ./... && cd tests && go test -count=1 ./...) >>$log 2>&1; then echo "REJECT $id: build or suite fails with patch"; git checkout -q -- .; mv /tmp/seedout-$prop/demo*_test.go $out/; exit 1; fi
-cp /tmp/seedout-$prop/demo${n}_test.go $place
-if (eval "$run") >>$log 2>&1; then echo "REJECT $id: demo passes with patch"; rm -f $place; git checkout -q -- .; mv /tmp/seedout-$prop/demo*_test.go $out/; exit 1; fi
+if ! git apply $out/patch$n.diff 2>>$log; then echo "REJECT $id: patch does not apply"; cp /tmp/seedtmp-$prop/demo*_test.go $out/ 2>/dev/null; exit 1; fi
+if ! (go build ./... && go test -count=1 ./... && cd tests && go test -count=1 ./...) >>$log 2>&1; then echo "REJECT $id: build or suite fails with patch"; git checkout -q -- .; cp /tmp/seedtmp-$prop/demo*_test.go $out/ 2>/dev/null; exit 1; fi
+cp /tmp/seedtmp-$prop/demo${n}_test.go $place
+if (eval "$run") >>$log 2>&1; then echo "REJECT $id: demo passes with patch"; rm -f $place; git checkout -q -- .; cp /tmp/seedtmp-$prop/demo*_test.go $out/ 2>/dev/null; exit 1; fi
 rm -f $place; git checkout -q -- .
-mv /tmp/seedout-$prop/demo*_test.go $out/
+cp /tmp/seedtmp-$prop/demo*_test.go $out/ 2>/dev/null
 d=/verif/seeded/$id; mkdir -p $d
 cp $out/patch$n.diff $d/patch.diff; cp $out/demo${n}_test.go $d/demo_test.go
 jq --arg id "$id" '. + {seed_id:$id, confirmed:"patch applies to the scratch worktree, go build ./... ok, go test ./... and tests/ pass with the patch, demo fails with the patch and passes without (tools/confirm_seed.sh)"}' $out/meta$n.json > $d/meta.json
